@@ -4,7 +4,7 @@ import itertools, random
 
 ATOMS = ['X0', 'X1', 'X2', 'X3']
 GROUPS = ['GA', 'GB', 'GC']
-TRAITS = {'D': ['G'], 'D2': ['G', 'H'], 'Dp': ['G'], 'Dp<u8>': ['G'], 'Dq': ['G'], 'Dl': ['G']}
+TRAITS = {'D': ['G'], 'D2': ['G', 'H'], 'Dp': ['G'], 'Dp<u8>': ['G'], 'Dq': ['G'], 'Dl': ['G'], 'Dc<1>': ['G'], 'Dc<2>': ['G']}
 
 
 def assocs_of(tr):
@@ -17,6 +17,7 @@ pub trait D2 { type G: ?Sized; type H: ?Sized; }
 pub trait Dp<P = ()> { type G: ?Sized; }
 pub trait Dq<P: ?Sized> { type G: ?Sized; }
 pub trait Dl<'a, 'b> { type G: ?Sized; }
+pub trait Dc<const N: usize> { type G: ?Sized; }
 pub trait Tr0 {}
 pub enum GA {} pub enum GB {} pub enum GC {}
 pub struct X0; pub struct X1; pub struct X2; pub struct X3;
@@ -287,7 +288,10 @@ class Case:
     def invocation(self, order=None):
         blocks = self.blocks if order is None else [self.blocks[i] for i in order]
         wt = getattr(self, 'with_type', False)
-        body = (trait_def(self.trait_name, self.trait_generics, where=getattr(self, 'trait_where', ''), with_type=wt) if self.trait_name else '')
+        us = getattr(self, 'unsafe_trait', False)
+        for b in blocks:
+            b.unsafe = us
+        body = (trait_def(self.trait_name, self.trait_generics, where=getattr(self, 'trait_where', ''), with_type=wt, unsafe=us) if self.trait_name else '')
         body += ''.join(block_text(b, self.trait_name, with_type=wt) for b in blocks)
         return body
 
@@ -472,7 +476,7 @@ def gen_case(rng, kind, idx=None):
         return gen_targs_case(rng, kind.split(':')[1])
     if kind == 'flat':
         h = pk.choice(['T', 'pair', 'vec', 'opt', 'box', 'arr', 'vecpair', 'w', 'dup', 'ref'])
-        blocks = gen_family(rng, h, rng.choice([2, 2, 3]), 0, tr=pk.choice(['D', 'D2', 'Dp', 'Dp<u8>']))
+        blocks = gen_family(rng, h, rng.choice([2, 2, 3]), 0, tr=pk.choice(['D', 'D2', 'Dp', 'Dp<u8>', 'Dc<1>', 'Dc<2>']))
         headers = [HEADERS[h]] * len(blocks)
     elif kind == 'unsized':
         h = pk.choice(['T', 'box', 'ref'])
@@ -691,7 +695,7 @@ def gen_case(rng, kind, idx=None):
     elif kind == 'overlap':
         mode = pk.choice(['same', 'wild', 'otherkey', 'generic_payload'])
         h = pk.choice(['T', 'pair', 'vec', 'opt', 'vecpair'])
-        blocks = gen_family(rng, h, 2, 0, extra=False, tr=pk.choice(['D', 'D2', 'Dp', 'Dp<u8>']))
+        blocks = gen_family(rng, h, 2, 0, extra=False, tr=pk.choice(['D', 'D2', 'Dp', 'Dp<u8>', 'Dc<1>']))
         b0, b1 = blocks
         bounded, tr, binds, place = b1.bounds[0]
         if mode == 'same':
@@ -712,7 +716,7 @@ def gen_case(rng, kind, idx=None):
             ground_rows = [inst_row.format(T9='X0'), gen_row.format(T9='X1')]
         else:
             # distinguished only on DIFFERENT keys: D::G vs D2::G on the same bounded type
-            other = {'D': 'D2', 'D2': 'D', 'Dp': 'Dp<u8>', 'Dp<u8>': 'Dp'}[tr]
+            other = {'D': 'D2', 'D2': 'D', 'Dp': 'Dp<u8>', 'Dp<u8>': 'Dp', 'Dc<1>': 'Dc<2>'}[tr]
             b1.bounds[0] = (bounded, other, {'G': rng.choice(GROUPS)}, place)
         headers = [HEADERS[h]] * 2
     else:
